@@ -94,6 +94,7 @@ class MarkupDomain(Domain):
         self.findings: List[Finding] = []
         self.sinks: Dict = {}  # (func qualname, text) -> dict(ok=bool, contexts=set, kinds=set)
         self.header_funcs = set()  # qualnames whose f-string/concat sinks are header lines
+        self.header_classes = set()  # class qualnames whose 'Name: value' / 'HTTP/1.0 ...' templates are header lines wherever they are built
         self.block_funcs = set()  # qualnames building Gopher+ blocks
         self.name_sinks: Dict = {}
 
@@ -386,6 +387,9 @@ class MarkupDomain(Domain):
         pieces = self._pieces(node, parts, eng, fr)
         if pieces is None:
             return
+        if mode == "markup" and fr.func.cls is not None and fr.func.cls.qualname in self.header_classes and pieces \
+                and pieces[0][1] is not None and re.match(r"(HTTP/\d\.\d \d|[A-Z][A-Za-z-]*: )", pieces[0][1]):
+            mode = "header"  # a status or header line written by a helper of the HTTP family
         if mode == "markup":
             if not any(k and "MARKUP" in k for _, _, k in pieces):
                 return
